@@ -1,6 +1,7 @@
 import Tx3Proofs.C16
 import Tx3Proofs.C16Int
 import Tx3Proofs.C16Ref
+import Tx3Proofs.C16Exact
 #print axioms Tx3.Json.C16_hex_roundtrip
 #print axioms Tx3.Json.C16_hexToBytes_plain
 #print axioms Tx3.Json.C16_hexToBytes_prefixed
@@ -12,3 +13,6 @@ import Tx3Proofs.C16Ref
 #print axioms Tx3.Json.ofBE16_toBE16
 #print axioms Tx3.Json.C16_int_hex16
 #print axioms Tx3.Json.C16_utxo_ref_roundtrip
+#print axioms Tx3.Json.go_exact
+#print axioms Tx3.Json.C16_request_args_exact
+#print axioms Tx3.Json.C16_argument_overrides_env
